@@ -67,6 +67,16 @@ def _cmp_loop_form(rows):
                 # `let ord = a.cmp(b); if ord.is_ne() { return ord }`
                 x = ir.peel(pe[2][0])
                 noneq = dispatch_truth(lab) == pe[1].endswith("is_ne")
+            elif pe[0] == 'call' and pe[1].split("::")[-1] in ("ne", "eq") and "PartialEq" in pe[1] and len(pe[2]) == 2 and dispatch_truth(lab) is not None:
+                # `if ord != Ordering::Equal { return ord }` / `if ord == Ordering::Equal { continue }`
+                for i_ in (0, 1):
+                    cv_ = ir.peel(pe[2][1 - i_])
+                    is_equal = (cv_[0] == 'agg' and cv_[2].endswith("Ordering::Equal")) or ir.const_value(cv_) == 0 or \
+                        (cv_[0] in ('const', 'constdef', 'promoted') and "Equal" in ir.show(cv_))
+                    if is_equal:
+                        x = ir.peel(pe[2][i_])
+                        noneq = dispatch_truth(lab) == (pe[1].split("::")[-1] == "ne")
+                        break
             if x is not None and x[0] == 'call' and x[1].endswith("::cmp") and len(x[2]) == 2 and all(ir.peel(a)[0] == 'call' and ir.peel(a)[1] in FOLDS for a in x[2]):
                 bytecmps.append((x, ('otherwise', (0,)) if noneq else ('case', 0)))
         is_byte_ret = False
